@@ -54,7 +54,7 @@ def continuations(spec, menu, fillable):
 def apply_cont(spec, obj, evs_ref, step, menu):
     k, e = step
     if k == "fill":
-        obj.fill(*e)
+        obj.fill(A.fresh(e[0]), e[1])
         evs_ref.append(e)
     elif k == "fillnp":
         from .c03 import norm_rec, numpy_alphabet, to_batch
